@@ -14,8 +14,8 @@
 
    The clock is a parameter (`now`, milliseconds): $currentDate writes
    VDate now, or VTs (now / 1000) 1 for {$type: "timestamp"}. *)
-From Lungo.Model Require Export Access Arith.
 From Lungo.Model Require Import Match.
+From Lungo.Model Require Export Access Arith.
 Open Scope string_scope.
 Open Scope Z_scope.
 
